@@ -44,7 +44,7 @@ func init() {
 		Level:       "Sound static check of the structural clauses of the property for in-module code: at most one response and stop-after-error on every path of every handler; no nil dereference of nullable decode targets or nil-with-success results; no unchecked assertion / explicit panic / unreviewed unproven bounds check / codec recursion. This is most of what 'never panics, never answers twice' means for this code base; panics inside dependencies are outside.",
 		Note:        "Trusted: go/types+go/cfg, the compiler's prove pass for the bounds report, dependencies. Allow-lists are keyed by function and expression with a reason each.",
 		Technique:   "static analysis: response typestate over go/cfg with interprocedural summaries; nil-flow rules over the typed AST; compiler bounds-check report; codec recursion rule",
-		Rules:       []string{"E2.R-once", "E2.R-stop", "E2.R-answer", "E3.N1", "E3.N2", "E3.N3", "E4.R-assert", "E4.R-panic", "E4.R-recursion", "E4.R-precondition", "E1"},
+		Rules:       []string{"E2.R-once", "E2.R-stop", "E2.R-answer", "E3.N1", "E3.N2", "E3.N3", "E4.R-assert", "E4.R-panic", "E4.R-recursion", "E4.R-precondition", "E5.R-examined", "E1"},
 		Floors:      []Floor{{"E2.R-once", 55}, {"E3.N1", 8}, {"E4.R-recursion", 10}},
 		Run: func(c *Ctx) {
 			RunE2(c)
@@ -61,6 +61,7 @@ func init() {
 			RunAssertPanic(c, []string{"oidc", "op", "client", "client/rp", "client/rs", "client/profile", "client/tokenexchange", "http", "crypto", "strings"}, c09AssertAllow, nil)
 			RunBounds(c, c09BoundsAllow)
 			RunMarshalRecursion(c, []string{"oidc", "op", "client", "client/rp"})
+			RunErrorsExamined(c, []string{"oidc", "op", "client", "client/rp", "client/rs", "client/profile", "client/tokenexchange", "http", "crypto"})
 			RunPreconditions(c, []string{"oidc", "op", "client", "client/rp", "client/rs", "client/profile", "client/tokenexchange", "http", "crypto"}, c09PreconditionAllow)
 		},
 	})
